@@ -352,7 +352,9 @@ def prepare_query(reg: Registry, hyps, goal, extra_terms=(), level=0):
                 done_fold.add(a.get_id())
                 if not worth_unfolding(a, fold_anchors):
                     continue
-                changed |= add(renth(z3.simplify(reg.fold_defs[a.decl().name()].unfold(a))))
+                # the application itself is kept syntactically as it occurs in the query (term identity matters for
+                # the instantiation heuristics); only the right-hand side is simplified
+                changed |= add(a == renth(z3.simplify(reg.fold_defs[a.decl().name()].rhs(a))))
         if not changed:
             break
     if qgoal:
@@ -360,7 +362,7 @@ def prepare_query(reg: Registry, hyps, goal, extra_terms=(), level=0):
     return ground0 + derived, g
 
 
-INST_ROUNDS = int(os.environ.get("PYVC_INST_ROUNDS", "4"))
+INST_ROUNDS = int(os.environ.get("PYVC_INST_ROUNDS", "7"))
 LIGHT_LABELS = ("requires:", "cinv:", "branch", "loop-index", "loop-iter", "loop-exit", "obl:", "ax:", "assume",
                 "raises", "no-raise", "map-len")
 FOLD_UNFOLD_ROUNDS = 3
@@ -443,6 +445,16 @@ def worth_unfolding(app, anchors):
     k = z3.simplify(app.arg(1))
     if z3.is_int_value(k):
         return k.as_long() <= 3
+    ids = {b.get_id() for b in anchors}
+    if app.get_id() in ids:
+        # an application of the query itself: unfold once when the query relates it to another application of the
+        # same fold (the index difference may be symbolic, e.g. a skolem index against the loop index)
+        for b in anchors:
+            if b.get_id() != app.get_id() and b.decl().name() == app.decl().name() and all(
+                    b.arg(i).get_id() == app.arg(i).get_id() for i in range(app.num_args()) if i != 1):
+                d = z3.simplify(app.arg(1) - b.arg(1))
+                if not (z3.is_int_value(d) and d.as_long() < 0):
+                    return True
     for b in anchors:
         if b.decl().name() != app.decl().name() or b.get_id() == app.get_id():
             continue
